@@ -167,6 +167,18 @@ class RngDiscipline:
                         if cls_ext:
                             events.append(Event(cls_ext[0], fi, line, text, cls_ext[1], depth))
                             continue
+                        if f[1].startswith("torch.") and f[1].count(".") == 1 and f[1].split(".")[1] in TORCH_GLOBAL_DRAWS:
+                            # torch draw with generator=<g>: g kept on the instance must be what the hook overwrites
+                            g = next((v for k_, v in ct[3] if k_ == "generator"), None)
+                            if g is not None and C is not None:
+                                ga = g[1] if g[0] == "self" else (g[1].split(".", 1)[1] if g[0] == "var" and fa.self_name and
+                                                                  g[1].startswith(f"{fa.self_name}.") else None)
+                                if ga is not None and ga not in ctrl:
+                                    events.append(Event("uncontrolled", fi, line, text,
+                                                        f"draw with generator=self.{ga}, an attribute / property that set_rng "
+                                                        f"does not overwrite: after a (re-)injection the draw still follows the "
+                                                        f"generator derived earlier", depth))
+                            continue
                         last = f[1].rsplit(".", 1)[-1]
                         if last == "get_rng_from_global":
                             events.append(Event("from-global", fi, line, text, "", depth))
